@@ -200,8 +200,36 @@ def rc_rules(repo):
     if sarm:
         t = "\n".join(unparse(s_) for s_ in sarm[0].body)
         ok = "elif char == 'N' and allow_N:\n        seq_rc.append('N')" in t and "raise ValueError" in t
+        # the N pass-through is a FALLBACK: a complement map that has its own entry for 'N' wins.  A table copied from the map in which
+        # 'N' is then stored (or listed after the unpacked map) gives the pass-through precedence.
+        override = None
+        for n_ in ast.walk(sarm[0]):
+            if isinstance(n_, ast.Assign) and len(n_.targets) == 1 and isinstance(n_.targets[0], ast.Subscript) and \
+                    const_value(n_.targets[0].slice) == "N" and const_value(n_.value) == "N" and isinstance(n_.targets[0].value, ast.Name):
+                tab = n_.targets[0].value.id
+                built = [a_ for a_ in ast.walk(sarm[0]) if isinstance(a_, ast.Assign) and any(isinstance(t_, ast.Name) and t_.id == tab for t_ in a_.targets)
+                         and "complement_map" in unparse(a_.value)]
+                guarded = False
+                pm_ = parent_map(sarm[0])
+                x_ = n_
+                while x_ in pm_:
+                    x_ = pm_[x_]
+                    if isinstance(x_, ast.If) and ("'N' not in" in unparse(x_.test) or "not 'N' in" in unparse(x_.test)):
+                        guarded = True
+                if built and not guarded:
+                    override = n_
+            if isinstance(n_, ast.Dict) and None in n_.keys:
+                ks = list(n_.keys)
+                star = [i for i, k_ in enumerate(ks) if k_ is None and "complement_map" in unparse(n_.values[i])]
+                lit = [i for i, k_ in enumerate(ks) if k_ is not None and const_value(k_) == "N" and const_value(n_.values[i]) == "N"]
+                if star and lit and min(lit) > min(star):
+                    override = n_
         if ok:
             out.append(holds("RC", fi, role, "N -> N under allow_N, else ValueError", sarm[0], nontrivial=False))
+        elif override is not None:
+            from ..core import named
+            out.append(named("RC", fi, role, "`%s` gives the N pass-through precedence over an entry for 'N' in complement_map (it must only fill a gap): "
+                             "with a map that complements N to another symbol, rc(rc(s)) != s and the string and tensor forms disagree" % unparse(override)[:50], override))
         elif "char == 'N'" not in t:
             out.append(violation("RC", fi, role, "the string form has no N case: reverse_complement(reverse_complement(s)) fails for s containing N", sarm[0]))
         else:
